@@ -35,6 +35,8 @@ def parseProbe (j : Json) : E Probe := do
   | "method" => pure .method
   | "scheme" => pure .scheme
   | "host" => pure .host
+  | "hostname" => pure .hostname
+  | "port" => pure .port
   | "path" => pure .path
   | "query" => pure .query
   | "capture" => pure (.capture a)
@@ -87,6 +89,11 @@ def parseDecoder (c : Json) (body : Option String) : Decoder := fun k b =>
   | .ok (.str s) => some s.toList
   | _ => none
 
+/-- `limits`: the `buffer_limit` block of the services in bytes (absent: 0 / 0) -/
+def parseLimits (c : Json) : Limits :=
+  let l := fldD c "limits" (Json.mkObj [])
+  { read := natD l "read" 0, write := natD l "write" 0 }
+
 def parseLevel (c : Json) : E LogLevel :=
   match strD c "log" "disabled" with
   | "trace" => pure .trace
@@ -111,6 +118,7 @@ def dedup (l : List (Bytes × Bytes)) : List (Bytes × Bytes) :=
 def seenJson (spyH spyC : List Bytes) (F : Funcs) (hm : List (Bytes × Bytes)) (s : Seen) : Json :=
   Json.mkObj [
     ("method", jbytes s.obj.method), ("scheme", jbytes s.obj.url.scheme), ("host", jbytes s.obj.url.host),
+    ("hostname", jbytes s.obj.url.hostname), ("port", jbytes s.obj.url.port),
     ("path", jbytes s.obj.url.path), ("rawpath", jbytes s.obj.url.rawPath), ("query", jbytes s.obj.url.rawQuery),
     ("captures", jpairs (dedup (s.obj.captures.getD []))),
     ("headers", jpairs (dedup hm)),
@@ -176,11 +184,18 @@ def run (c : Json) : E Json := do
     | .ok (.str s) => some s
     | _ => none
   let cfg : Cfg := { repo, hasDefault, pipes, defaultPipe, D := parseDecoder c bodyStr,
-                     respond := parseRespond (fldD c "respond" (Json.mkObj [])), logLevel := ← parseLevel c }
+                     respond := parseRespond (fldD c "respond" (Json.mkObj [])), logLevel := ← parseLevel c,
+                     limits := parseLimits c }
   -- the three entry points
   let mut res : List (String × Json) := []
   let mut stats : List (String × Json) := []
   for ep in [EP.decision, EP.envoy, EP.proxy] do
+    -- `listen`: the server in front of the handler chain refuses a head that exceeds the read buffer limit (431)
+    if !reachesChain cfg.limits ep lr then
+      res := res ++ [(epName ep, Json.mkObj [("dec", jstr "status-431"), ("status", jnat 431), ("spy", Json.null),
+                                              ("up", Json.null)])]
+      stats := stats ++ [(epName ep, jstr "head-too-large")]
+      continue
     match mkCtx I cfg.D cfg.logLevel pack ep lr with
     | none => res := res ++ [(epName ep, Json.mkObj [("dec", jstr "badrequest")])]
     | some e =>
@@ -197,6 +212,8 @@ def run (c : Json) : E Json := do
   let specJson := Json.mkObj [
     ("wellformed", Json.bool (Spec.wellFormed lr)),
     ("covered", Json.bool (Spec.covered I lr)),
+    ("fits", Json.bool (Spec.fits cfg.limits lr)),
+    ("head_bytes", jnat lr.headLength),
     ("single_valued", Json.bool (Spec.singleValued sp)),
     ("delivered", Json.mkObj ([EP.decision, EP.envoy, EP.proxy].map fun ep =>
       (epName ep, deliveredHeaders cfg.respond lr ep sp))),
